@@ -57,6 +57,7 @@ for _p in ("C01", "C03"):
     fixed("F49", _p, "23440b0", "C01.unit-merge|unit-merge|emit_instruction|Phi.0", "`fn maybe(t){ if (t > 1.0) { bump() } }`: the bytecode generator looked the value of a unit-valued `if` up in the register table and panicked (`value none not found`); WASM compiled and ran the program (findings/repro/F49_*.mmm)")
     fixed("F49", _p, "23440b0", "C01.unit-merge|unit-merge|emit_instruction|Phi.1", "same defect, else input of the Phi")
     fixed("F50", _p, "a2c4d82", "C01.unit-merge|unit-merge|Switch-inputs|input", "`match t { 1 => bump(), _ => { x = x + 10.0 } }`: same panic in the Switch lowering for an arm without a value (findings/repro/F50_*.mmm)")
+fixed("F51", "C14", "0b515b8", "C14.keyword-space|kw|print_if_expr|If", "mimium-fmt printed `let y = if gate { 1.0 } else { 0.0 }` as `let y = ifgate { .. }` (keyword and an unparenthesised condition glued together: a different program); findings/repro/F51_*.mmm")
 fixed("F21", "C01", "52a554f", "C01.ops|truthiness|JmpIfNeg|F64Const+F64Gt", "`if` on a NaN condition took the then-branch on the VM (cond <= 0.0 test) and the else-branch on WASM (cond > 0.0)")
 
 # ---- C01 operator templates ---------------------------------------------------------------------------
